@@ -3,6 +3,7 @@ package checks
 import (
 	"fmt"
 	"os"
+	"strings"
 
 	"verif/drv"
 	"verif/eng"
@@ -94,6 +95,15 @@ func bigBatchHistory(n, stride int) *eng.CrashHistory {
 		Ops:  []m.Op{ins("a", manyDocs(n)...), {K: "delete", Q: qOn("a", m.Leaf("gte", "x", int64(3)))}}}
 }
 
+// bigValueHistory: documents whose values exceed a storage page and badger's value threshold (value log).
+func bigValueHistory() *eng.CrashHistory {
+	long := strings.Repeat("v", 6000)
+	return &eng.CrashHistory{Name: "big-values",
+		Prep: []m.Op{{K: "createColl", Coll: "a"}, {K: "createIndex", Coll: "a", Field: "x"}, ins("a", doc(u1, "x", int64(1), "pad", long))},
+		Ops: []m.Op{ins("a", doc(u2, "x", int64(2), "pad", long), doc(u3, "x", long)), updID("a", u1, "inplace", "pad", long+"2", "x", int64(9)),
+			{K: "delete", Q: qOn("a", m.Leaf("eq", "x", int64(2)))}, {K: "dropIndex", Coll: "a", Field: "x"}}}
+}
+
 func init() {
 	register("C05", "fault_enumeration", func(run *ev.Run, tier string) string {
 		tags := own("crash-state", "reopen", "setup", "harness")
@@ -103,14 +113,14 @@ func init() {
 			maxLen = 3
 		}
 		hs := crashHistories(maxLen)
-		hs = append(hs, fixedHistory(), bigBatchHistory(700, 41), bigBatchHistory(1300, 97))
+		hs = append(hs, fixedHistory(), bigValueHistory(), bigBatchHistory(700, 41), bigBatchHistory(1300, 97))
 		if tier == "thorough" {
 			hs = append(hs, bigBatchHistory(2600, 61), bigBatchHistory(5200, 211))
 		}
 		run.Set("histories", len(hs))
 		eng.CrashSnapshots(run, hs, tags)
 		// real kills: validates the image model on bbolt and covers badger on disk
-		kills := []*eng.CrashHistory{fixedHistory(), bigBatchHistory(1300, 401)}
+		kills := []*eng.CrashHistory{fixedHistory(), bigValueHistory(), bigBatchHistory(1300, 401)}
 		if tier == "thorough" {
 			kills = append(kills, crashHistories(2)...)
 		} else {
